@@ -85,7 +85,7 @@ def run(ctx):
     evals = 0
     distinct = set()
     samples = []
-    corr = {"parse0": 0, "parse1": 0, "upd1": 0, "upd2": 0}
+    corr = {"parse0": 0, "parse1": 0, "upd1": 0, "upd2": 0, "res1": 0, "res2": 0, "bupd1": 0, "bupd2": 0}
     compared = 0
     judge_bad = 0
     dist = {"tests": {}, "suffixed": 0, "crlf": 0, "with_attrs": 0, "with_delimlike_inputs": 0, "with_wrong_expectations": 0,
@@ -141,8 +141,19 @@ def run(ctx):
                                "correspondence": {"parse0": "TsVerif.C20.parseFile vs parse_tests (original file)",
                                                   "parse1": "TsVerif.C20.parseFile vs parse_tests (file after update)",
                                                   "upd1": "TsVerif.C20.updateFile vs run_tests_at_path(update) (first run)",
-                                                  "upd2": "TsVerif.C20.updateFile vs run_tests_at_path(update) (second run)"}[k]},
+                                                  "upd2": "TsVerif.C20.updateFile vs run_tests_at_path(update) (second run)",
+                                                  "bupd1": "second file of a directory update, first run (model: untouched iff the run stopped in the first file)",
+                                                  "bupd2": "second file of a directory update, second run",
+                                                  "res1": "TsVerif.C20.updateStatus vs Ok/Err of run_tests_at_path(update) (first run)",
+                                                  "res2": "TsVerif.C20.updateStatus vs Ok/Err of run_tests_at_path(update) (second run)"}[k]},
                               {"corr": k}, False))
+        dist["directory_runs"] = dist.get("directory_runs", 0) + int(kv.get("dir", "0"))
+        if kv.get("bjudge", "ok") != "ok":
+            judge_bad += 1
+            c = kv["bjudge"].split(":", 1)[1]
+            ctx.violation("judge", "C20 judge failed on the second file of a directory update: " + c,
+                          {"case": cid, "spec": specs.get(cid, ""), "clause": c, "result": {k: v for k, v in kv.items() if k != "model1"}},
+                          fingerprint={"clause": c})
         if kv["judge"] != "ok":
             judge_bad += 1
             clauses = kv["judge"].split(":", 1)[1].split(",")
@@ -172,6 +183,10 @@ def run(ctx):
         "parser_answers": acts_total, "satisfying_ActOK": acts_ok,
         "real_entries": ent_total, "with_canonical_flags (attrs = flagsOf name attrsStr)": ent_canon}
     ctx.coverage["format_class"] = {"printed_error_free_sexps": sx_total, "in_theorem_class": sx_class}
+    ctx.oblige("corr:directory-update-second-file", corr["bupd1"] + corr["bupd2"] == 0,
+               "%d disagreements" % (corr["bupd1"] + corr["bupd2"]))
+    ctx.oblige("corr:updateStatus=Ok/Err-of-run_tests_at_path", corr["res1"] + corr["res2"] == 0,
+               "%d disagreements" % (corr["res1"] + corr["res2"]))
     ctx.oblige("corr:updateFile=run_tests_at_path(update)", corr["upd1"] + corr["upd2"] == 0, "%d disagreements" % (corr["upd1"] + corr["upd2"]))
     ctx.coverage.update({
         "evaluations": evals, "distinct_nontrivial": len(distinct),
